@@ -273,8 +273,12 @@ func writeEvidence(c *check, m *merged, nviol int) {
 	e := evidence{PropertyID: c.id, Tier: tier, Seed: seed, Level: "exploration", Coverage: cov,
 		Assumptions: c.assumptions, WallS: time.Since(started).Seconds(), Violations: nviol}
 	b, _ := json.MarshalIndent(&e, "", " ")
-	os.MkdirAll(filepath.Join(verifDir, "evidence"), 0o755)
-	if err := os.WriteFile(filepath.Join(verifDir, "evidence", c.id+".json"), b, 0o644); err != nil {
+	edir := filepath.Join(verifDir, "evidence")
+	if d := os.Getenv("VERIF_EVIDENCE_DIR"); d != "" {
+		edir = d // runs against seeded changes must not overwrite the real evidence
+	}
+	os.MkdirAll(edir, 0o755)
+	if err := os.WriteFile(filepath.Join(edir, c.id+".json"), b, 0o644); err != nil {
 		infra("writing evidence: %v", err)
 	}
 }
